@@ -105,7 +105,10 @@ def main(
 
     logger.info("Starting time loop")
     # for step in range(model.timer.Nsteps + 1):
-    for _step in range(model.timer.Nsteps):
+    nsteps = model.timer.Nsteps
+    if config["warm_start"]:  # The first step was taken by the warm start
+        nsteps -= 1
+    for _step in range(nsteps):
         model.update()
 
     # --------------
